@@ -141,4 +141,7 @@ def run(rep):
     bad_r = lib.undischarged_ranges(F[N + 'bad_decode_flags'])[0] + lib.undischarged_bounds(F[N + 'bad_decode_flags'])[0]
     good_r = lib.undischarged_ranges(F[N + 'good_decode_flags'])[0] + lib.undischarged_bounds(F[N + 'good_decode_flags'])[0]
     ctl('range-index discharge (length lower bound from is_empty / len tests)', len(bad_r) == 2, not good_r)
+    bm = lib.merge_compare_sites(F[N + 'bad_merge_unsorted'])
+    gm = lib.merge_compare_sites(F[N + 'good_merge_sorted'])
+    ctl('merge-shaped comparison needs sorted inputs', bool(bm) and not all(x[3] and x[4] for x in bm), bool(gm) and all(x[3] and x[4] for x in gm))
     return results
